@@ -197,6 +197,7 @@ func (p c20) Run(c *core.Ctx) {
 	{
 		k := &queueChecker{states: map[[3]int]bool{}}
 		var trace []byte
+		drainedAndReused := false
 		target := []int{8, 16, 32}[r.Intn(3)]
 		d := guard(func() string {
 			for i := 0; i < 400; i++ {
@@ -224,15 +225,37 @@ func (p c20) Run(c *core.Ctx) {
 					}
 				}
 			}
-			// drain
-			for len(k.model) > 0 {
-				trace = append(trace, 'D')
-				if d := k.dequeue(); d != "" {
-					return d
+			// drain to exactly empty, then go on using the queue (twice): a drained queue that grew before
+			// must behave like a new one
+			for phase := 0; phase < 3; phase++ {
+				for len(k.model) > 0 {
+					trace = append(trace, 'D')
+					if d := k.dequeue(); d != "" {
+						return d
+					}
 				}
+				if phase == 2 {
+					break
+				}
+				for i := r.Range(9, 30); i > 0; i-- {
+					trace = append(trace, 'E')
+					if d := k.enqueue(); d != "" {
+						return d
+					}
+					if r.Chance(1, 4) {
+						trace = append(trace, 'D')
+						if d := k.dequeue(); d != "" {
+							return d
+						}
+					}
+				}
+				drainedAndReused = true
 			}
 			return ""
 		})
+		if drainedAndReused {
+			c.Feature("queue-reused-after-drain")
+		}
 		if d != "" {
 			c.Violate("the queue is not an exact FIFO: "+d, map[string]any{"operations": string(trace)})
 			return
@@ -275,15 +298,33 @@ func (p c20) Run(c *core.Ctx) {
 					}
 					model = model[:len(model)-1]
 				case op == 2:
-					var xs []int
-					for k := r.Intn(5); k > 0; k-- {
+					// the caller's slice has spare capacity and is modified by the caller afterwards: the stack
+					// must have taken the VALUES
+					n := r.Intn(5)
+					xs := make([]int, 0, n+4)
+					for k := n; k > 0; k-- {
 						next++
 						xs = append(xs, next)
 					}
 					s.PushAll(xs...)
 					model = append(model, xs...)
-					trace = append(trace, fmt.Sprintf("pushall(%d)", len(xs)))
+					for i := range xs {
+						xs[i] = -1000 - i
+					}
+					_ = append(xs, -7, -8)
+					trace = append(trace, fmt.Sprintf("pushall(%d)+caller-modifies-its-slice", len(xs)))
 					c.Feature("stack-pushall")
+					if len(model) == n {
+						c.Feature("stack-pushall-on-empty-stack")
+					}
+					// the whole content is compared, not just the top
+					for len(model) > 0 && r.Chance(1, 3) {
+						if v := s.Pop(); v != model[len(model)-1] {
+							return fmt.Sprintf("Pop() = %d, want %d (after a PushAll whose argument slice the caller then modified)", v, model[len(model)-1])
+						}
+						model = model[:len(model)-1]
+						trace = append(trace, "pop")
+					}
 				case op == 3:
 					s.Clear()
 					model = model[:0]
